@@ -70,6 +70,8 @@ class ExprMixin:
             return R.SPEC[name]
         if name in self.BUILTINS:
             return GlobalRef("builtins." + name)
+        if ("builtins." + name) in R.EXTERNALS and not isinstance(R.EXTERNALS["builtins." + name], R.ExtFn):
+            return self.global_value("builtins." + name)      # builtin constants a theory gives a value to (Ellipsis, NotImplemented)
         if name in R.SPEC:
             return R.SPEC[name]
         if st.spec_mode and name.startswith("L_") and getattr(self, "_strict_locals", False):
